@@ -304,6 +304,81 @@ Proof.
   - eapply vsock_new_LB; eassumption.
 Qed.
 
+(* ================================================================== c06_no_resend_acked *)
+Lemma seq_sub_ahead : forall u m, 0 <= u < M16 -> 0 <= m <= 4096 ->
+  seq_sub ((u + m) mod M16) u = m \/ seq_sub ((u + m) mod M16) u < 0.
+Proof.
+  intros u m Hu Hm. unfold seq_sub, seq_nr_offset, wsub16, WRAP_TOLERANCE, M16 in *.
+  destruct (Z.ltb_spec ((u + m) mod 65536) u);
+  [ destruct (Z.leb_spec (((u + m) mod 65536 - u) mod 65536) 1024)
+  | destruct (Z.eqb_spec ((u + m) mod 65536) u);
+    [ | destruct (Z.leb_spec ((u - (u + m) mod 65536) mod 65536) 1024) ] ]; lia.
+Qed.
+
+Theorem c06_no_resend_acked_t_poll : forall cfg (s : vsock) sc,
+  LB 0 s -> v_emsg_limit s = None -> script_legit sc = true ->
+  c06_no_resend_acked_t cfg (fstep_of cci s (VoPoll sc)) = true.
+Proof.
+  intros cfg s sc HL Hl Hs. unfold c06_no_resend_acked_t, c06_no_resend_acked.
+  destruct (poll cci (VSockRec.set_sends s sc)) as [s' r] eqn:E.
+  rewrite (fstep_of_poll cci s sc s' r E). cbn [fs_event fs_result fs_pre fs_post].
+  destruct (tol_ok (fp_of_vsock cci s')) eqn:Ht'; [|reflexivity].
+  destruct (tol_ok (fp_of_vsock cci s)) eqn:Ht; [|reflexivity].
+  assert (HL0 : LB 0 (VSockRec.set_sends s sc)) by (eapply LB_kp; [exact HL|]; unfold kp; auto).
+  assert (HE : EF (VSockRec.set_sends s sc)) by (split; [exact Hs | exact Hl]).
+  pose proof (poll_OUT_DM_strict_all cci _ _ _ HL0 HE E) as K.
+  assert (Hcase : v_out s' = [] \/ (OUT s' /\ DM (v_segs s) (v_segs s'))).
+  { destruct r; [right|right|right|left]; try (destruct K as (_ & K2 & K3); split; assumption). exact K. }
+  clear K. destruct Hcase as [Ho|[Hout (d & D1 & D2 & D3)]]; [rewrite Ho; reflexivity|].
+  apply forallb_forall. intros x Hx. apply filter_In in Hx. destruct Hx as [Hx Hd].
+  apply in_map_iff in Hx. destruct Hx as (p & <- & Hp). apply in_rev in Hp.
+  unfold OUT in Hout. rewrite Forall_forall in Hout. specialize (Hout p Hp).
+  assert (Hty : ch_type (p_hdr p) = ST_DATA).
+  { unfold fq_is_data, fpacket_of in Hd. cbn [fq_hdr] in Hd. destruct (ch_type (p_hdr p)); try discriminate; reflexivity. }
+  destruct (Hout Hty) as (j & g' & A1 & A2 & A3 & _).
+  unfold fpacket_of. cbn [fq_hdr]. unfold fseg_of_seq.
+  unfold tol_ok in Ht, Ht'. cbn [fp_of_vsock f_segs f_snd_una] in *. rewrite map_length in *.
+  apply Z.leb_le in Ht, Ht'.
+  assert (Hj : (j < length (ss_segs (v_segs s')))%nat) by (apply nth_error_Some; congruence).
+  destruct HL as ((_ & _ & _ & _ & Hu) & _).
+  rewrite A2, D2. change (v_segs (VSockRec.set_sends s sc)) with (v_segs s) in *.
+  rewrite wadd16_wadd16 by lia. unfold wadd16.
+  rewrite (Z.mod_small (Z.of_nat d + Z.of_nat j)) by (unfold M16; lia).
+  destruct (seq_sub_ahead (ss_snd_una (v_segs s)) (Z.of_nat d + Z.of_nat j) Hu ltac:(lia)) as [Hk|Hk].
+  - rewrite Hk.
+    destruct ((0 <=? Z.of_nat d + Z.of_nat j) && (Z.of_nat d + Z.of_nat j <? Z.of_nat (length (ss_segs (v_segs s))))) eqn:Eb;
+      [|reflexivity].
+    replace (Z.to_nat (Z.of_nat d + Z.of_nat j)) with (d + j)%nat by lia.
+    rewrite nth_error_map. destruct (nth_error (ss_segs (v_segs s)) (d + j)) as [g0|] eqn:E0; [|reflexivity].
+    cbn [option_map]. unfold fseg_of. cbn [fg_delivered].
+    destruct (sg_delivered g0) eqn:Ed0; [|reflexivity].
+    exfalso. destruct (D3 j g0 E0 Ed0) as (g2 & G1 & G2). congruence.
+  - replace (0 <=? seq_sub ((ss_snd_una (v_segs s) + (Z.of_nat d + Z.of_nat j)) mod M16) (ss_snd_una (v_segs s)))
+      with false by (symmetry; apply Z.leb_gt; exact Hk). reflexivity.
+Qed.
+
+Theorem c06_no_resend_acked_t_other : forall cfg (s : vsock) o,
+  (forall sc, o <> VoPoll sc) -> c06_no_resend_acked_t cfg (fstep_of cci s o) = true.
+Proof.
+  intros cfg s o Hnp. unfold c06_no_resend_acked_t, c06_no_resend_acked. rewrite fstep_of_event.
+  destruct (tol_ok _); [|reflexivity]. destruct o; try reflexivity. exfalso. eapply Hnp. reflexivity.
+Qed.
+
+Theorem c06_no_resend_acked_g_trace : forall cfg mk c (s0 : vsock) ops,
+  vconfig_ok c = true -> vsock_new cci mk c = Some s0 ->
+  c06_no_resend_acked_g cfg (ftrace cci s0 ops) = true.
+Proof.
+  intros cfg mk c s0 ops Hc H0. unfold c06_no_resend_acked_g.
+  assert (Hl : v_emsg_limit s0 = None).
+  { unfold vsock_new in H0.
+    destruct (match (if vc_incoming c then None else _) with Some r => _ | None => _ end); [|discriminate].
+    inversion H0; subst. reflexivity. }
+  rewrite <- Hl. apply noemsg_scan_ok.
+  - apply c06_no_resend_acked_t_other.
+  - apply c06_no_resend_acked_t_poll.
+  - eapply vsock_new_LB; eassumption.
+Qed.
+
 (* ================================================================== c06_backoff_ok *)
 Lemma filter_data_nodata : forall l, Forall nodata l -> filter fq_is_data (map fpacket_of l) = [].
 Proof.
